@@ -11,6 +11,15 @@ CLAIMED = {
   'C04': dict(section='4 C04', technique='Coq proof (R) of the decision rules for the Gallina translated from the three classifier mixins; bit-exact exact-lane correspondence with forced ties; ROC-AUC oracle validated against Mann-Whitney in exact rationals',
               text='Theorem C04_holds: translated pairs predict = +1 iff distance <= threshold (else -1), decision = -distance, monotone in threshold and distance, set_threshold stores its argument, score = roc_auc_score(y, decision); triplets predict +1 iff d(a,b) < d(a,c), decision = d(a,c)-d(a,b), swap negates, score = fraction of +1; quadruplets predict sign(d(c,d)-d(a,b)), swap negates. Tie: translator + bit-exact comparison on integer data with ties (threshold on / one ulp around a distance, equal distances, identical points, calibrated thresholds).',
               note='as C01; roc_auc_score is an oracle validated per run against the Mann-Whitney count'),
+  'C18': dict(section='4 C18', technique='Coq proof by reflection over the constructor table translated from every __init__ (MRO flattened), parametric in the value type; exhaustive dynamic enumeration',
+              text='Theorem C18_holds (axiom-free): for all 17 constructors as translated from the source on this run, every non-deprecated parameter is stored as the identical object (get_params returns it, for any value type), deprecated aliases map onto their documented replacement with a FutureWarning and no other deprecated parameter exists, set_params/get_params round-trip, every query method starts with check_is_fitted. Tie: translator (a dropped or defaulted argument is structurally visible) + exhaustive enumeration of every parameter with sentinel/array/callable values, NotFittedError on every query method, pickle round trip bit-identical.',
+              note='trusted: Coq kernel, vm_compute, translator tools/translate_init.py, scikit-learn BaseEstimator introspection semantics (oracle validated by the enumeration); no axioms'),
+  'C16': dict(section='4 C16', technique='Coq proof (R, nat counts) of optimality of the calibration model over all real thresholds; exhaustive exact-lane correspondence of the model with calibrate_threshold',
+              text='Theorem C16_holds: for every finite validation set and EVERY real threshold, the model threshold is at least as good for accuracy, F-beta (any beta), max_tpr and max_tnr (admissible and maximal), and an admissible cut-off always exists. Tie: the model (Model/Calibrate.v, evaluated on exact rationals) reproduces threshold_ exactly on every labelled multiset up to size 5 (quick) / 6 (thorough) over 4 distance values x 15 strategy/parameter settings (~16k cases), plus random larger sets, through calibrate_threshold and through fit(calibration_params); invalid parameters rejected before fitting.',
+              note='trusted: Coq kernel, vm_compute, Reals axioms; the model is hand-written and tied by the exhaustive correspondence; sklearn roc_curve / precision_recall_curve are inside the implementation side'),
+  'C07': dict(section='4 C07', technique='Coq proof (axiom-free, lists/integers) for every random stream; correspondence by replaying the recorded RandomState outputs through the model',
+              text='Theorem C07_partial: for every label vector and every sequence of random outputs, pairs are sound (distinct points, known labels, same/different class), duplicate-free, at most n_constraints, warning flag iff fewer; chunks have known homogeneous classes, ids < n_chunks, exactly chunk_size members, ValueError iff infeasible; k-NN triplets are exactly all combinations, each once, and in the caller frame carry known labels of the right classes for any neighbour tables with the documented contents. Not mechanised (checked per run): chunk disjointness and that exactly n_chunks are formed. Tie: the implementation runs with a logging RandomState / NearestNeighbors, the Coq model replays the stream and must reproduce the output exactly.',
+              note='trusted: Coq kernel, vm_compute, model Model/Constraints.v, numpy RandomState and scikit-learn NearestNeighbors contracts (oracles, certified per run), harness stream decoding; no axioms'),
 }
 
 NOT_YET = {}
